@@ -61,7 +61,14 @@ var envSeq int32 = int32(time.Now().UnixNano()%200) + 1
 func FreePort(ip string) (int, error) { return freePort(ip) }
 
 func freePort(ip string) (int, error) {
-	ln, err := net.Listen("tcp", ip+":0")
+	var ln net.Listener
+	var err error
+	for try := 0; try < 40; try++ {
+		if ln, err = net.Listen("tcp", ip+":0"); err == nil {
+			break
+		}
+		time.Sleep(50 * time.Millisecond)
+	}
 	if err != nil {
 		return 0, err
 	}
@@ -144,7 +151,14 @@ func Start(o Options) (*Env, error) {
 		e.Close()
 		return nil, fmt.Errorf("proxy connect: %w", err)
 	}
-	ln, err := net.Listen("tcp", "127.0.0.1:0")
+	// thousands of short-lived connections leave the loopback short of ephemeral ports for a moment: try again
+	var ln net.Listener
+	for try := 0; try < 40; try++ {
+		if ln, err = net.Listen("tcp", "127.0.0.1:0"); err == nil {
+			break
+		}
+		time.Sleep(50 * time.Millisecond)
+	}
 	if err != nil {
 		e.Close()
 		return nil, err
